@@ -654,7 +654,7 @@ func lemmaParamsSeparate(p *mgmt.ControlArgs) {}
 
 //@ func (*FaceModule).handleIncomingInterest
 //@   requires specCmd(f.manager, interest)
-//@   modifies verifResponses, verifStatus, verifMutCount, verifMutKind, verifMutFace, verifMutMtu, verifFaceSt, f.nextFaceDatasetVersion
+//@   modifies verifResponses, verifStatus, verifMutCount, verifMutKind, verifMutFace, verifMutMtu, verifFaceSt, f.nextFaceDatasetVersion, all(defn.URI)
 //@   ensures !specAuth() ==> verifMutCount == old(verifMutCount) && verifResponses == old(verifResponses)
 //@   ensures [one-verb] (verifResponses == old(verifResponses) || verifResponses == old(verifResponses)+1) && (verifMutCount == old(verifMutCount) || verifMutCount == old(verifMutCount)+1 || verifMutCount == old(verifMutCount)+2 || verifMutCount == old(verifMutCount)+3)
 //@   assert before prefixLength@1 [auth] specAuth()
